@@ -17,7 +17,8 @@
     printing code (strengthening round, seed C10-3): for every option the constructor defaults
     of the OTHER classes with an option of that name, every constant the model's `__str__` tables
     and the live source of quantizers.py compare an option of that name with, and the
-    falsy-but-legal values (0, 0.0, False), each under every context of the class.
+    falsy-but-legal values (0, 0.0, False; a numeric scale of 0 included), each under every
+    context of the class; list-valued axes of the classes that have them.
     str(q) vs model print (string equality), get_quantizer(str(q)) vs the model's verdict and
     rebuilt fields, and the clause oracle "denotes the same function":
       str_same_options  — the COMPLETE option set of the rebuilt quantizer (every constructor
@@ -264,7 +265,7 @@ def same_reading(a, b):
 # --------------------------------------------------------------------------- option lattice (C10)
 
 NOT_SWEPT = {"var_name", "use_variables", "post_training_scale"}   # not literals / no effect
-NO_ZERO = {"bits", "alpha", "elements_per_scale"}   # 0 is not a legal value of these options
+NO_ZERO = {"bits", "alpha", "elements_per_scale"}   # no generic 0 for these options (alpha: see rule 4)
 
 
 def harvest_source_constants(module):
@@ -345,6 +346,12 @@ def extra_option_values(name, defaults, harvested, anchors):
         continue
       add(o, v, "source-constant")   # kept only if the constructor and the call accept it
     # (4) falsy-but-legal
+    if o == "alpha" and any(isinstance(w, (int, float)) and not isinstance(w, bool) for w in known.get(o, [])):
+      # a numeric scale of 0 is accepted where a numeric scale is (the zero function); the classes
+      # whose __str__ tested `if self.alpha:` dropped it (repaired in the second fix round).  Named
+      # here so that the case does not depend on a constant of the live source (rule 3)
+      add(o, 0.0, "falsy")
+      add(o, 0, "falsy")
     if o in NO_ZERO or o == "qnoise_factor":
       continue
     kinds = [own[o]] + [w for w in known.get(o, []) if not isinstance(w, (list, np.ndarray))]
@@ -498,17 +505,25 @@ def scalar_form_configs(name, defaults, rng_index):
 
 
 def list_configs(name):
-  """list-valued axis options of the classes whose __str__ prints them with str(x) (binary, which
-  prints item by item, has them in the C09 lattice already)"""
+  """list-valued axis options of the three other classes that have them (binary has them in the C09
+  lattice already).  A quantizer is a tf.Module, so the stored list is a tracked ListWrapper: until
+  the second fix round __str__ printed "ListWrapper([0,1])" and the re-parse returned the DEFAULT
+  quantizer.  Ordinary members of every clause now (no known entry: a return is a VIOLATION)."""
   if name == "quantized_bits":
     return [{"bits": 4, "alpha": "auto", "scale_axis": [0, 1]},
             {"bits": 4, "alpha": "auto_po2", "scale_axis": [0, 1], "elements_per_scale": [2, 3]},
             {"bits": 4, "alpha": "auto_po2", "scale_axis": 1, "elements_per_scale": [2]},
-            {"alpha": "auto", "scale_axis": [1]}]
+            {"alpha": "auto", "scale_axis": [1]},
+            {"bits": 4, "alpha": "auto_po2", "scale_axis": [1, 0], "elements_per_scale": [3, 2]},
+            {"alpha": "auto_po2", "scale_axis": [0], "elements_per_scale": 2},
+            {"alpha": 0.0, "scale_axis": [0, 1]},
+            {"bits": 4, "alpha": 0, "scale_axis": [1], "use_ste": False}]
   if name == "quantized_linear":
-    return [{"bits": 4, "alpha": "auto", "scale_axis": [0, 1]}, {"alpha": "auto_po2", "scale_axis": [1]}]
+    return [{"bits": 4, "alpha": "auto", "scale_axis": [0, 1]}, {"alpha": "auto_po2", "scale_axis": [1]},
+            {"bits": 4, "alpha": "auto_po2", "scale_axis": [1, 0]}, {"alpha": 0.0, "scale_axis": [0, 1]}]
   if name == "quantized_hswish":
-    return [{"bits": 4, "alpha": "auto", "scale_axis": [0, 1]}]
+    return [{"bits": 4, "alpha": "auto", "scale_axis": [0, 1]}, {"alpha": "auto_po2", "scale_axis": [1]},
+            {"bits": 4, "alpha": "auto_po2", "scale_axis": [1, 0]}, {"alpha": 0, "scale_axis": [0, 1]}]
   return []
 
 
@@ -668,12 +683,14 @@ def run(run: core.Run, tier: str):
       "context of the class: the constructor defaults of the other classes for an option of that name "
       "(temperature 6.0 / 8.0, relu_upper_bound None / 6, negative_slope 0 / 0.0, symmetric 0 / 1 / False), "
       "the constants of the model's __str__ tables and the literals the live source of quantizers.py "
-      "compares an attribute of that name with, the falsy-but-legal values 0 / 0.0 / False, and pairs of "
+      "compares an attribute of that name with, the falsy-but-legal values 0 / 0.0 / False (a numeric "
+      "scale alpha = 0 / 0.0 named explicitly for every class with a numeric scale), and pairs of "
       "those values (kept when the constructor accepts them and the probe maps to finite numbers); "
       "array-valued options in every argument form (alpha of quantized_linear as list / tuple / float64 / "
       "float32 ndarray / tf.constant / tf.Variable; integer bits of quantized_bits / quantized_relu / "
       "quantized_hswish as int64 / int32 ndarray / tf.Variable) on three-channel probes; list-valued axes "
-      "of quantized_bits / quantized_linear / quantized_hswish; every printed text also with blanks after "
+      "(scale_axis, elements_per_scale; 16 configurations, 13 accepted by constructor and call; tracked lists of a tf.Module) of quantized_bits / "
+      "quantized_linear / quantized_hswish; every printed text also with blanks after "
       "commas / around '=' / inside the parentheses, through QActivation(text), and again after a "
       "safe_eval call with a keyword override on the same text. "
       "non-trivial = distinct text / distinct (class, keyword set)")
